@@ -3,7 +3,7 @@
 import sys, os, json, shutil, glob
 pid, m, det = sys.argv[1:4]
 strengthened = sys.argv[4] if len(sys.argv) > 4 else ""
-src = "/tmp/seed/%s/out/%s" % (pid, m)
+src = "%s/%s/out/%s" % (os.environ.get("SEEDBASE", "/tmp/seed"), pid, m)
 dst = "/verif/seeded/%s-%s" % (pid, m)
 shutil.rmtree(dst, ignore_errors=True)
 os.makedirs(dst)
